@@ -85,6 +85,7 @@ pub struct PoolTarget {
     n: [u32; 5], // names, strs, vss, solvs, unions: 1 + highest id returned
     held: Held,
     ret: i64,
+    bulk_stable: bool,
 }
 
 impl PoolTarget {
@@ -95,6 +96,7 @@ impl PoolTarget {
             n: [0; 5],
             held: Held::default(),
             ret: -1,
+            bulk_stable: true,
         }
     }
     fn note(&mut self, table: usize, id: u32) {
@@ -182,7 +184,7 @@ impl PoolTarget {
         json!({"ret": self.ret, "bulk": self.bulk,
             "n_names": self.n[0], "n_strs": self.n[1], "n_vss": self.n[2], "n_solvs": self.n[3], "n_unions": self.n[4],
             "names": names, "strs": strs, "vss": vss, "solvs": solvs, "unions": unions,
-            "lookup": lookup, "stable": stable && bulk_ok})
+            "lookup": lookup, "stable": stable && bulk_ok && self.bulk_stable})
     }
 }
 
@@ -209,6 +211,9 @@ impl Target for PoolTarget {
                     self.note(3, sv.0);
                     let u = self.pool.intern_version_set_union(v, std::iter::empty());
                     self.note(4, u.0);
+                    // take (and keep) a reference to every element as soon as it exists, so
+                    // that a later insertion that moves it is noticed
+                    self.bulk_stable &= self.check_and_hold();
                 }
                 self.ret = -1;
             }
